@@ -418,6 +418,21 @@ CHECKS = {
         design_ref="DESIGN.md 5 C16",
         note=NOTE_COMMON + " Tolerance 5e-5. The target-grid clause for a requested sampling is only applied where the statement needs it (same grid); spline interpolation is outside the statement.",
     ),
+    "C37": dict(
+        text=("Fd.tla gives the centred second-derivative stencils of accuracy 2-8 as exact rationals (TLC checks the table against the "
+              "moment conditions) and defines the periodic discrete Laplacian by its weights c_k/dx^2, c_k/dy^2 (a circulant operator: "
+              "the weights decide every plane-wave eigenvalue). FdImpl.tla transcribes _laplace_operator_stencil (rolled coefficient "
+              "array indexed with negative k, numpy.pad wrap by n+1, interior loop, slicing) and LaplaceOperator's prefactors; TLC "
+              "compares weight by weight for all grids up to 3x3 (thorough 4x4, including grids narrower than the stencil), accuracy "
+              "2 and 4, spacings {1, 1/2, 2/3}^2. Conformance (scenarios enumerated by TLC): the real stencil applied to every one-hot "
+              "array (accuracy 2/4/6, grids 5x4, 7x7, 3x6, 6x9, spacings (1,1), (1/2,1), (2/3,1/2)) -> weights in fixed point, compared "
+              "by TLC with the exact rationals (tolerance 2e-4) and for missing periodic neighbours; plane waves for accuracies 2..18 on "
+              "square and rectangular samplings vs the analytic eigenvalue; probes through vacuum with RealSpaceMultislice (accuracy "
+              "2/6/8 x order 1-3 x scope propagator/full) for intensity conservation and lazy == eager."),
+        technique="TLA+ model of the finite-difference stencil (padding, loop, coefficient indexing, prefactors) checked by TLC against exact rational Laplacian weights; TLC trace validation of one-hot operator columns, eigenvalue and vacuum runs of the real code",
+        design_ref="DESIGN.md 5 C37",
+        note=NOTE_COMMON + " Accuracies above 18 need sympy, which the sandbox lacks, and are not exercised. Tolerance 5e-5 on eigenvectors and intensities.",
+    ),
 }
 
 NOT_APPLICABLE = {
